@@ -578,3 +578,21 @@ def build_handler(scenario: dict, rt, inv_no: int):
     it = Interp(scenario["prog"], rt, inv_no)
     handler = durable_execution(boto3_client=FakeLambdaClient())(it.user_fn)
     return handler, it
+
+
+class _WarmSlot:
+    it = None
+
+
+def warm_handler(scenario: dict, rt, inv_no: int, handler):
+    """Warm sandbox: the decorated handler (and the service client given to it) is created once per process; every invocation
+    gets a fresh interpreter of the workflow program."""
+    from dw.child import FakeLambdaClient
+
+    _WarmSlot.it = Interp(scenario["prog"], rt, inv_no)
+    if handler is None:
+        def user(event, ctx):
+            return _WarmSlot.it.user_fn(event, ctx)
+
+        handler = durable_execution(boto3_client=FakeLambdaClient())(user)
+    return handler, _WarmSlot.it
